@@ -25,7 +25,7 @@ import (
 )
 
 type readerSpec struct {
-	api string // take | qrow
+	api string // take | qrow | qidx (QueryRowIndex: index key -> primary key -> row; always row k1)
 	key string // k1 | k2
 }
 
@@ -40,7 +40,9 @@ const (
 
 // log records (vsched.Log, totally ordered):
 //   C <reader>                     reader is about to call Take/QueryRow
-//   S <q> <key> <reader>           query q starts, run on behalf of <reader>
+//   S <q> <key> <reader> <ck> <arg> query q of row <key> starts, run on behalf of <reader>; <ck> = cache key it loads
+//                                  (p1 | p2 primary-key query, ix = index query); <arg> = "-" | "exact" |
+//                                  "INEXACT:<type(value)>": the primary-key argument the cached layer passed
 //   E <q> <result>                 query q ends with row:<q> | notfound | dberr:<q>
 //   R <reader> <result>            reader returned row:<q> | notfound | dberr:<q> | err:<text>
 //   G <key> <max gauge>            end of execution: max concurrent queries of key
@@ -48,24 +50,59 @@ const (
 //   N <GETs>                       end of execution: number of GET commands = number of flights
 
 func readersScenario(name, mode string, readers []readerSpec) vx.Scenario {
+	return readersScenarioPK(name, mode, "small", readers)
+}
+
+// ckOfRow: short name of the primary cache key of a row in the log.
+func ckOfRow(k string) string {
+	if k == "k1" {
+		return "p1"
+	}
+	return "p2"
+}
+
+func readersScenarioPK(name, mode, shapeName string, readers []readerSpec) vx.Scenario {
+	sh := shapeByName(shapeName)
 	body := func() {
+		shape = sh
 		env.reset()
 		if mode == cacheDown {
 			env.setOutage(true)
 		}
 		nq := 0
-		gauges := map[string]*vsched.Var{"k1": {}, "k2": {}}
+		gauges := map[string]*vsched.Var{"p1": {}, "p2": {}, "ix": {}}
 		db := newFakeDB()
 		opts := []cache.Option{cache.WithExpiry(expiry), cache.WithNotFoundExpiry(notFoundExpiry)}
 		// one node, one barrier: Take goes to the node, QueryRow through a CachedConn over the same node
 		node := cache.NewNode(env.rds, syncx.NewSingleFlight(), env.st, sql.ErrNoRows, opts...)
 		cc := sqlc.NewConnWithCache(db, node)
-		query := func(me, key string, v any) error {
+		// key: the row the reader is after; ck: the cache key this query loads; primary: the argument
+		// of a primary-key query that the cached layer supplied (nil: the caller's own typed key)
+		query := func(me, key, ck string, primary, v any) error {
 			nq++
 			n := nq
 			id := fmt.Sprintf("q%d", n)
-			gauges[key].Add(1)
-			vsched.Log("S %s %s %s", id, key, me)
+			gauges[ck].Add(1)
+			arg := "-"
+			row := key
+			if primary != nil {
+				arg = "exact"
+				if !denotesExactly(primary, pkOf(key)) {
+					arg = "INEXACT:" + renderArg(primary)
+					// the database answers for the key it was asked for: another row, or none
+					row = ""
+					for _, k := range []string{"k1", "k2"} {
+						if f, ok := primary.(float64); ok {
+							if n, isInt := pkOf(k).(int64); isInt && float64(n) == f {
+								row = k
+							}
+						} else if fmt.Sprint(primary) == pkString(k) {
+							row = k
+						}
+					}
+				}
+			}
+			vsched.Log("S %s %s %s %s %s", id, key, me, ck, arg)
 			vsched.Op("in-query")
 			var err error
 			res := "row:" + id
@@ -73,14 +110,14 @@ func readersScenario(name, mode string, readers []readerSpec) vx.Scenario {
 			case mode == dbDown || (mode == dbFailOnce && n == 1):
 				err = fmt.Errorf("dberr:%s", id)
 				res = err.Error()
-			case mode == dbAbsent:
+			case mode == dbAbsent || row == "":
 				err = sql.ErrNoRows
 				res = "notfound"
 			default:
-				*(v.(*Row)) = Row{ID: rowIDOf(key), Name: rowNameOf(key), V: id}
+				*(v.(*Row)) = newRow(row, id)
 			}
 			vsched.Log("E %s %s", id, res)
-			gauges[key].Add(-1)
+			gauges[ck].Add(-1)
 			return err
 		}
 		var wg vsched.WaitGroup
@@ -90,28 +127,41 @@ func readersScenario(name, mode string, readers []readerSpec) vx.Scenario {
 			vsched.GoNamed(fmt.Sprintf("reader%d", i), false, func() {
 				defer wg.Done()
 				me := fmt.Sprintf("r%d", i)
-				ck := cacheKeyOf(rs.key)
+				ck := env.single.real(cacheKeyOf(rs.key))
 				var row Row
 				var err error
 				vsched.Log("C %s", me)
-				if rs.api == "take" {
-					err = node.Take(&row, ck, func(v any) error { return query(me, rs.key, v) })
-				} else {
+				switch rs.api {
+				case "take":
+					err = node.Take(&row, ck, func(v any) error { return query(me, rs.key, ckOfRow(rs.key), nil, v) })
+				case "qrow":
 					err = cc.QueryRow(&row, ck, func(conn sqlx.SqlConn, v any) error {
 						if conn != sqlx.SqlConn(db) {
 							return fmt.Errorf("foreign connection handed to the query")
 						}
-						return query(me, rs.key, v)
+						return query(me, rs.key, ckOfRow(rs.key), nil, v)
 					})
+				case "qidx":
+					// keyer / index query / primary query as goctl generates them
+					err = cc.QueryRowIndex(&row, keyIx, func(primary any) string { return fmt.Sprintf("%s%v", keyPrefix, primary) },
+						func(conn sqlx.SqlConn, v any) (any, error) {
+							if err := query(me, rs.key, "ix", nil, v); err != nil {
+								return nil, err
+							}
+							return pkOf(rs.key), nil
+						},
+						func(conn sqlx.SqlConn, v, primary any) error {
+							return query(me, rs.key, ckOfRow(rs.key), primary, v)
+						})
 				}
 				res := ""
 				switch {
-				case err == nil && row.ID == rowIDOf(rs.key):
+				case err == nil && row.pk() == pkString(rs.key):
 					res = "row:" + row.V
 				case err == nil && row == (Row{}):
 					res = "err:empty-row"
 				case err == nil:
-					res = fmt.Sprintf("err:row-of-other-key(id=%d,v=%s)", row.ID, row.V)
+					res = fmt.Sprintf("err:row-of-other-key(id=%s,v=%s)", row.pk(), row.V)
 				case err == sql.ErrNoRows:
 					res = "notfound"
 				case strings.HasPrefix(err.Error(), "dberr:"):
@@ -123,7 +173,7 @@ func readersScenario(name, mode string, readers []readerSpec) vx.Scenario {
 			})
 		}
 		wg.Wait()
-		for _, k := range []string{"k1", "k2"} {
+		for _, k := range []string{"p1", "p2", "ix"} {
 			vsched.Log("G %s %d", k, gauges[k].Max())
 		}
 		gets := 0
@@ -153,6 +203,7 @@ func readersScenario(name, mode string, readers []readerSpec) vx.Scenario {
 		}
 		type qT struct {
 			id, key, by, res string
+			ck, arg          string // cache key the query loads (p1|p2|ix); primary-key argument verdict
 			start, end       int
 		}
 		qs := map[string]*qT{}
@@ -166,7 +217,7 @@ func readersScenario(name, mode string, readers []readerSpec) vx.Scenario {
 			case "C":
 				callPos[f[1]] = pos
 			case "S":
-				q := &qT{id: f[1], key: f[2], by: f[3], start: pos, end: -1}
+				q := &qT{id: f[1], key: f[2], by: f[3], ck: f[4], arg: f[5], start: pos, end: -1}
 				qs[q.id] = q
 				qorder = append(qorder, q)
 			case "E":
@@ -183,10 +234,16 @@ func readersScenario(name, mode string, readers []readerSpec) vx.Scenario {
 				}
 			}
 		}
-		// at most one database query at a time per key
-		for k, g := range gauge {
-			if g != "0" && g != "1" {
-				return vx.Verdict{Class: "concurrent-db-queries-one-key", Msg: fmt.Sprintf("%s database queries of key %s were in flight at the same time", g, k)}
+		// at most one database query at a time per (cache) key
+		for _, k := range []string{"p1", "p2", "ix"} {
+			if g := gauge[k]; g != "0" && g != "1" {
+				return vx.Verdict{Class: "concurrent-db-queries-one-key", Msg: fmt.Sprintf("%s database queries loading cache key %s were in flight at the same time", g, k)}
+			}
+		}
+		// the database is only ever asked for the exact primary key of the row being read
+		for _, q := range qorder {
+			if strings.HasPrefix(q.arg, "INEXACT:") {
+				return vx.Verdict{Class: "db-queried-with-inexact-primary-key:concurrent", Msg: fmt.Sprintf("reader %s queried the database (query %s) with primary key %s, the row's primary key is %s", q.by, q.id, strings.TrimPrefix(q.arg, "INEXACT:"), renderArg(pkOf(q.key)))}
 			}
 		}
 		if mode == cacheDown {
@@ -204,19 +261,19 @@ func readersScenario(name, mode string, readers []readerSpec) vx.Scenario {
 		cacheable := map[string]int{} // per key: log position at which a cacheable (row / not-found) query ended
 		for _, q := range qorder {
 			ownQueries[q.by]++
-			perKey[q.key]++
+			perKey[q.ck]++
 			if q.key != keyOf[q.by] {
 				return vx.Verdict{Class: "query-of-other-key", Msg: fmt.Sprintf("query %s of key %s ran inside the read of %s (key %s)", q.id, q.key, q.by, keyOf[q.by])}
 			}
 			if q.start < callPos[q.by] || q.end > retPos[q.by] {
 				return vx.Verdict{Class: "query-outside-its-read", Msg: fmt.Sprintf("query %s ran outside the call of its reader %s", q.id, q.by)}
 			}
-			if p, ok := cacheable[q.key]; ok && q.start > p {
-				return vx.Verdict{Class: "cached-entry-requeried", Msg: fmt.Sprintf("query %s of key %s started after an earlier query had produced a cacheable result (row / not found): the entry was not served from the cache", q.id, q.key)}
+			if p, ok := cacheable[q.ck]; ok && q.start > p {
+				return vx.Verdict{Class: "cached-entry-requeried", Msg: fmt.Sprintf("query %s loading cache key %s started after an earlier query had produced a cacheable result (row / not found) for that key: the entry was not served from the cache", q.id, q.ck)}
 			}
 			if !strings.HasPrefix(q.res, "dberr:") {
-				if _, ok := cacheable[q.key]; !ok {
-					cacheable[q.key] = q.end
+				if _, ok := cacheable[q.ck]; !ok {
+					cacheable[q.ck] = q.end
 				}
 			}
 		}
@@ -230,7 +287,7 @@ func readersScenario(name, mode string, readers []readerSpec) vx.Scenario {
 		}
 		// every reader receives the result of a query that ran during its call (its own or a shared
 		// flight's), or the cached outcome of an earlier one
-		shape := []string{}
+		srcs := []string{}
 		var rds []string
 		for rd := range result {
 			rds = append(rds, rd)
@@ -239,7 +296,7 @@ func readersScenario(name, mode string, readers []readerSpec) vx.Scenario {
 		for _, rd := range rds {
 			res := result[rd]
 			if mode == cacheDown {
-				shape = append(shape, "E")
+				srcs = append(srcs, "E")
 				continue
 			}
 			var src *qT
@@ -266,28 +323,39 @@ func readersScenario(name, mode string, readers []readerSpec) vx.Scenario {
 			overlaps := retPos[src.by] > callPos[rd] && src.start < retPos[rd]
 			switch {
 			case src.by == rd:
-				shape = append(shape, "Q") // ran the query itself
+				srcs = append(srcs, "Q") // ran the query itself
 			case overlaps:
-				shape = append(shape, "S") // shared the flight (or hit the entry it had just written)
+				srcs = append(srcs, "S") // shared the flight (or hit the entry it had just written)
 			case strings.HasPrefix(res, "dberr:"):
 				return vx.Verdict{Class: "stale-db-error-served", Msg: fmt.Sprintf("reader %s called after the read that ran query %s had returned and still received its error: database errors must not be cached", rd, src.id)}
 			default:
-				shape = append(shape, "H") // served from the cache entry written by an earlier flight
+				srcs = append(srcs, "H") // served from the cache entry written by an earlier flight
 			}
 			// the newest cacheable result wins: a reader never gets a row older than the cached one
 		}
-		// final store content
-		want := map[string]string{}
-		for k, n := range perKey {
-			_ = n
-			var last *qT
-			for _, q := range qorder {
-				if q.key == k && !strings.HasPrefix(q.res, "dberr:") {
-					last = q
-				}
+		// final store content. Per cache key the candidates are the cacheable results of the queries that
+		// load it (flights of one key are serial and a cacheable result is never re-queried, so that is at
+		// most one); a successful index query additionally writes its row under the primary key, possibly
+		// concurrently with a primary-key query of another reader: either row may be the survivor.
+		cand := map[string]map[string]bool{}
+		addCand := func(ck, res string) {
+			if cand[ck] == nil {
+				cand[ck] = map[string]bool{}
 			}
-			if last != nil {
-				want[cacheKeyOf(k)] = last.res
+			cand[ck][res] = true
+		}
+		viaIndex := map[string]bool{}
+		for _, q := range qorder {
+			switch {
+			case strings.HasPrefix(q.res, "dberr:"):
+			case q.ck == "ix" && q.res == "notfound":
+				addCand("ix", "notfound")
+			case q.ck == "ix":
+				addCand("ix", "ix:"+ixJSON())
+				addCand(ckOfRow(q.key), q.res)
+				viaIndex[ckOfRow(q.key)] = true
+			default:
+				addCand(q.ck, q.res)
 			}
 		}
 		got := map[string]string{}
@@ -297,11 +365,20 @@ func readersScenario(name, mode string, readers []readerSpec) vx.Scenario {
 				at := strings.LastIndex(item, "@")
 				key, val, ttl := item[:eq], item[eq+1:at], item[at+1:]
 				d, _ := time.ParseDuration(ttl)
-				lo, hi, r := valLo, valHi, "row:"+rowValueOfJSON(val)
-				if val == "*" {
-					lo, hi, r = phLo, phHi, "notfound"
+				ck := map[string]string{keyP1: "p1", keyP2: "p2", keyIx: "ix"}[key]
+				if ck == "" {
+					return vx.Verdict{Class: "foreign-key-written:concurrent", Msg: fmt.Sprintf("the store holds key %s=%s: no reader or writer of rows %s / %s uses that key, so no Exec will ever invalidate it", key, val, pkString("k1"), pkString("k2"))}
 				}
-				got[key] = r
+				lo, hi, r := valLo, valHi, "row:"+rowValueOfJSON(val)
+				switch {
+				case val == "*":
+					lo, hi, r = phLo, phHi, "notfound"
+				case ck == "ix":
+					r = "ix:" + val
+				case viaIndex[ck]:
+					hi = valHi + indexGapSlack // QueryRowIndex requests expiry + 5 s for the primary entry
+				}
+				got[ck] = r
 				if d == 0 {
 					return vx.Verdict{Class: "persistent-key:concurrent", Msg: fmt.Sprintf("key %s=%s was written without a TTL", key, val)}
 				}
@@ -310,14 +387,22 @@ func readersScenario(name, mode string, readers []readerSpec) vx.Scenario {
 				}
 			}
 		}
-		for k, w := range want {
-			if got[k] != w {
-				return vx.Verdict{Class: "entry-missing:concurrent", Msg: fmt.Sprintf("after all readers returned key %s holds %q, the last successful query produced %s", k, got[k], w)}
-			}
-		}
-		for k, g := range got {
-			if want[k] == "" {
-				return vx.Verdict{Class: "failed-read-cached:concurrent", Msg: fmt.Sprintf("key %s holds %s although no query produced a cacheable result", k, g)}
+		for _, ck := range []string{"p1", "p2", "ix"} {
+			c, g := cand[ck], got[ck]
+			switch {
+			case len(c) == 0 && g != "":
+				return vx.Verdict{Class: "failed-read-cached:concurrent", Msg: fmt.Sprintf("cache key %s holds %s although no query produced a cacheable result for it", ck, g)}
+			case len(c) > 0 && !c[g]:
+				var cs []string
+				for x := range c {
+					cs = append(cs, x)
+				}
+				sort.Strings(cs)
+				cls := "entry-missing:concurrent"
+				if g != "" {
+					cls = "entry-mismatch:concurrent"
+				}
+				return vx.Verdict{Class: cls, Msg: fmt.Sprintf("after all readers returned cache key %s holds %q, the successful queries produced %v", ck, g, cs)}
 			}
 		}
 		var nk []string
@@ -325,7 +410,7 @@ func readersScenario(name, mode string, readers []readerSpec) vx.Scenario {
 			nk = append(nk, fmt.Sprintf("%s:%d", k, n))
 		}
 		sort.Strings(nk)
-		return vx.Verdict{Sig: fmt.Sprintf("queries{%s} flights=%s readers=%s", strings.Join(nk, ","), gets, strings.Join(shape, ""))}
+		return vx.Verdict{Sig: fmt.Sprintf("queries{%s} flights=%s readers=%s", strings.Join(nk, ","), gets, strings.Join(srcs, ""))}
 	}
 	return vx.Scenario{Name: name, Body: body, Check: check}
 }
@@ -334,6 +419,9 @@ func scheduleScenarios(thorough bool) []vx.Scenario {
 	same3 := []readerSpec{{"take", "k1"}, {"qrow", "k1"}, {"qrow", "k1"}}
 	take3 := []readerSpec{{"take", "k1"}, {"take", "k1"}, {"take", "k1"}}
 	two1 := []readerSpec{{"qrow", "k1"}, {"take", "k1"}, {"qrow", "k2"}}
+	idx3 := []readerSpec{{"qidx", "k1"}, {"qidx", "k1"}, {"qidx", "k1"}}  // index key -> primary key -> row
+	idx2q := []readerSpec{{"qidx", "k1"}, {"qidx", "k1"}, {"qrow", "k1"}} // plus a reader of the primary key itself
+	idx2t := []readerSpec{{"qidx", "k1"}, {"take", "k1"}, {"qidx", "k1"}}
 	sc := []vx.Scenario{
 		readersScenario("3-readers/row-present", dbPresent, same3),
 		readersScenario("3-readers/row-absent", dbAbsent, same3),
@@ -343,12 +431,38 @@ func scheduleScenarios(thorough bool) []vx.Scenario {
 		readersScenario("2+1-readers/two-keys/row-present", dbPresent, two1),
 		readersScenario("2+1-readers/two-keys/db-fails-once", dbFailOnce, two1),
 	}
+	// every read entry point, every primary-key shape: readers through the index key
+	for _, sh := range shapes {
+		sc = append(sc,
+			readersScenarioPK("3-index-readers/pk-"+sh.name+"/row-present", dbPresent, sh.name, idx3),
+			readersScenarioPK("2-index+1-primary-readers/pk-"+sh.name+"/row-present", dbPresent, sh.name, idx2q))
+		if sh.name != "small" {
+			// the direct readers with the other key shapes (the first block above is pk-small)
+			sc = append(sc, readersScenarioPK("3-readers/pk-"+sh.name+"/row-present", dbPresent, sh.name, same3))
+		}
+	}
+	sc = append(sc,
+		readersScenarioPK("3-index-readers/pk-small/row-absent", dbAbsent, "small", idx3),
+		readersScenarioPK("3-index-readers/pk-small/db-fails-once", dbFailOnce, "small", idx3),
+		readersScenarioPK("3-index-readers/pk-small/cache-outage", cacheDown, "small", idx3),
+		readersScenarioPK("2-index+1-primary-readers/pk-huge/db-fails-once", dbFailOnce, "huge", idx2q),
+	)
 	if thorough {
 		sc = append(sc,
 			readersScenario("3-takes/row-present", dbPresent, take3),
 			readersScenario("3-takes/row-absent", dbAbsent, take3),
 			readersScenario("2+1-readers/two-keys/row-absent", dbAbsent, two1),
+			readersScenarioPK("3-index-readers/pk-small/db-down", dbDown, "small", idx3),
+			readersScenarioPK("2-index+1-primary-readers/pk-small/row-absent", dbAbsent, "small", idx2q),
 		)
+		for _, sh := range shapes {
+			sc = append(sc, readersScenarioPK("2-index+1-take-readers/pk-"+sh.name+"/row-present", dbPresent, sh.name, idx2t))
+			if sh.name != "small" {
+				sc = append(sc,
+					readersScenarioPK("3-index-readers/pk-"+sh.name+"/row-absent", dbAbsent, sh.name, idx3),
+					readersScenarioPK("3-index-readers/pk-"+sh.name+"/db-fails-once", dbFailOnce, sh.name, idx3))
+			}
+		}
 	}
 	return sc
 }
